@@ -81,7 +81,7 @@ def run_component_case(c, want_jac=True):
         pt = c["pattern"]
         comp = prob.model.c
         info = comp._subjacs_info.get((comp.pathname + "." + pt["of"], comp.pathname + "." + pt["wrt"]))
-        mp = core.model_value(pt["op"], pt["ints"], np.zeros(0))
+        mp = core.model_value(pt["op"], pt["ints"], np.asarray(pt.get("floats", []), dtype=float))
         if info is None or info.get("rows") is None:
             out.append(dict(kind="pattern", component=c["name"], size=c["size"], detail="no declared rows/cols for (%s, %s)" % (pt["of"], pt["wrt"])))
         else:
